@@ -6,7 +6,23 @@ from collections import defaultdict
 
 from . import mir, sym, guards
 from .mir import span_loc
-from .c16 import root_arg
+from .c16 import root_arg as _root_arg16
+
+
+def root_arg(t):
+    """parameter an operand term is derived from, also through From/Into conversions"""
+    t = strip_bb(t)
+    while isinstance(t, tuple):
+        if t[0] in ('ref', 'refmut'):
+            t = t[1]
+        elif t[0] == 'place':
+            t = t[1]
+        elif t[0] == 'call' and t[2] and (t[1].endswith(('>::from', '>::into', '::into_repr', '::repr')) or t[1] in ('core::mem::take', 'core::mem::replace')
+                                          or t[1].endswith('as core::clone::Clone>::clone')):
+            t = t[2][0]
+        else:
+            break
+    return t[1] if isinstance(t, tuple) and t[0] == 'arg' else None
 from .c17b import strip_bb, strip_ref_ty
 
 PROP = "C15"
